@@ -810,7 +810,10 @@ Next ==
   /\ meta' = IF Is("scenario") THEN Ev ELSE meta
   /\ LET nb == NewBad IN
        /\ Report(nb)
-       /\ bad' = (IF Is("scenario") THEN {} ELSE bad) \cup nb
+       \* (every record is printed; the variable only keeps the first few dozen of a scenario - it
+       \* serves the invariant `Holds' of single-trace replays, and a set that grows with every
+       \* occurrence of a known finding made long scenarios quadratic)
+       /\ bad' = (IF Is("scenario") THEN nb ELSE IF Cardinality(bad) >= 64 THEN bad ELSE bad \cup nb)
   /\ dur' = NextDur
   /\ pstate' = NextPstate
   /\ maxterm' = NextMaxterm
